@@ -179,7 +179,8 @@ func checkLoneScan(p *Program, r *Result, fn *ssa.Function) {
 					rest = append(rest, s)
 				}
 			}
-			if typ && ln && len(rest) == 0 && len(ret.Results) == 2 && isNilConst(ret.Results[0]) && isFreshNonSentinelError(ret.Results[1]) {
+			refusal := isFreshNonSentinelError(ret.Results[1]) || (p.definitelyNonNil(stripConv(ret.Results[1]), 0) && !isSentinel(tb, ret.Results[1]))
+			if typ && ln && len(rest) == 0 && len(ret.Results) == 2 && isNilConst(ret.Results[0]) && refusal {
 				scan, scanRet = l, ret
 			}
 		}
